@@ -23,6 +23,7 @@ import (
 	"strconv"
 	"strings"
 	"sync"
+	"syscall"
 	"time"
 )
 
@@ -198,6 +199,39 @@ func (k *K) Add(set string, format string, a ...any) {
 func (k *K) Sample() { k.wantSample = true }
 
 func (k *K) Failed() bool { return k.failed }
+
+// CPUGuard runs f while a monitor watches the CPU time consumed by this process (getrusage, user + system: a measure of the work
+// done, not of elapsed time - a loaded machine does not inflate it). If f uses more than bound, the work is declared unbounded: the
+// witness is printed and the process exits; the parent reports the case as violated with that output (a computation that does not
+// return cannot be abandoned from inside the process). bound is chosen 1000 x and more above what the computation needs.
+func (k *K) CPUGuard(bound time.Duration, what string, f func()) {
+	cpu := func() time.Duration {
+		var ru syscall.Rusage
+		if syscall.Getrusage(syscall.RUSAGE_SELF, &ru) != nil {
+			return 0
+		}
+		return time.Duration(ru.Utime.Nano() + ru.Stime.Nano())
+	}
+	start := cpu()
+	done := make(chan struct{})
+	go func() {
+		t := time.NewTicker(100 * time.Millisecond)
+		defer t.Stop()
+		for {
+			select {
+			case <-done:
+				return
+			case <-t.C:
+				if used := cpu() - start; used > bound {
+					fmt.Fprintf(os.Stderr, "UNBOUNDED WORK: %s has consumed %.1f s of CPU time without returning (bound %.0f s; the same call needs milliseconds when the work is polynomial in the size of its input)\n", what, used.Seconds(), bound.Seconds())
+					os.Exit(4)
+				}
+			}
+		}
+	}()
+	defer close(done)
+	f()
+}
 
 // Failf records a violation of the property on this case.
 func (k *K) Failf(format string, a ...any) {
